@@ -78,6 +78,10 @@ CHECKS = {
    technique='deterministic simulation of histories with canary secrets over every failure path incl. injected disk errors (LD_PRELOAD shim), corrupted frames and authentication failures, with the real client library running part of the traffic; retroactive canary scan of all log records >= INFO and of all result messages',
    text='Every secret-bearing value (registered key material, secret data, credentials passwords, plaintext/ciphertext/MAC/signature data, wrapping keys, server-generated and derived keys learned afterwards through Get) is a unique high-entropy canary. A root handler at INFO collects every record of every logger (message + exception text, which for disk errors contains SQLAlchemy statement parameters). No canary may occur in raw, hex (both cases), base64 or escaped-bytes form, no hex of a message encoding, and no canary in any result message.',
    note='Canaries shorter than 8 bytes are not tracked (accidental matches). Logger levels are those the code sets; root level INFO (server default).'),
+ 'C13': dict(level='exploration', ref='5/C13',
+   technique='deterministic simulation sweeping the grid operation x stored object type x lifecycle state x KMIP version x parameter class through the real session and engine, plus seeded random well-typed histories; monitor on General Failure results, internal-error log records and exceptions leaving the message loop',
+   text='Each grid cell builds an object of the type in the state through the API and then issues the operation with a parameter variant (valid, optional absent, inapplicable to the type, unknown/unsupported attribute, unsupported algorithm/mode/parameter, out-of-range values) under the version; thorough sweeps all 22 x 7 x 4 x 6 x 6 cells, quick a seeded slice, both add random well-typed histories over random stores. A request the real decoder accepts must never be answered with General Failure, never produce the engine\'s or session\'s internal-error log record, and never make an exception leave the message loop. Violations are keyed by (operation, exception class, source site).',
+   note='Fault-free configurations only (under injected disk errors General Failure is the legitimate answer). Requests the decoder refuses are counted and skipped.'),
 }
 ALL = ['C%02d' % i for i in range(1, 21)]
 
